@@ -52,6 +52,7 @@ func VerifC09Base() {
 // itself valid and that the server still holds.
 func VerifC09NodeLemma() {
 	ctx := context.Background()
+	defer func() { vfC09Calls = 2 }()
 	st := &vfs.Storage{}
 	life := vf.Dur("lifetime", 3600000000000, 400000000000000000)
 	nb := vf.Dur("nbskew", -1000000000000000, 0)
@@ -117,8 +118,8 @@ func VerifC09NodeLemma() {
 		}
 		chains = append(chains, chain{leaf.NotBefore, leaf.NotAfter, root.NotBefore.AsTime(), root.NotAfter.AsTime(), root.PublicKeyPkix})
 	}
-	// up to two more server calls, each at most delta after the previous one
-	calls := vf.Int("calls-after-enrollment", 0, 2)
+	// up to two (thorough tier: four) more server calls, each at most delta after the previous one
+	calls := vf.Int("calls-after-enrollment", 0, vfC09Calls)
 	for k := 0; k < calls; k++ {
 		wait("gap", delta-budget)
 		server = rotate()
@@ -137,3 +138,10 @@ func VerifC09NodeLemma() {
 	vf.Sat("bound-is-tight-at-2R", vf.And(vf.TimeLT(q, te.Add(2*R)), vf.Not(trusted)))
 	vf.Reach("end")
 }
+
+var vfC09Calls = 2
+
+// VerifC09NodeLemma4 is the node lemma over up to four server calls after the enrollment (thorough tier).
+func VerifC09NodeLemma4() { vfC09Calls = 4; VerifC09NodeLemma() }
+
+func init() { VfHarnesses["VerifC09NodeLemma4"] = VerifC09NodeLemma4 }
